@@ -122,6 +122,19 @@ def run(ctx, rep):
         else:
             ok = vals == ["node.name"]
         rep.check(ok, "N6", "C17|N6|%s" % vname, cfg.where(fnm), "Symbol::%s.get_name() must be the node's own name as written; extracted %r" % (vname, [fmt_label(v) for v in vals]), sample={"variant": vname, "name": [fmt_label(v) for v in vals]})
+    # N7: the names that make up keys and qualified names are the identifiers as written (grammar wiring)
+    import wiring
+    obls, _ = wiring.analyse(ctx)
+    n = 0
+    for o in obls:
+        if o.aspect in ("value", "ident") and ("|name" in o.key or "QualifiedName" in o.key or "|path" in o.key or o.aspect == "ident"):
+            n += 1
+            if o.ok:
+                rep.ok("N7", o.key, o.sample)
+            else:
+                rep.fail("N7", "C17|%s" % o.key, o.where, o.message, witness=o.witness)
+    rep.floor("N7", "name wiring obligations", n, 20)
+    rep.rule("N7", "A9: package / item / member names and qualified-name segments are the IDENT texts, re-joined with '.' irrespective of spacing")
     # N5
     c05.resolve_type_rules(ctx, rep, "C17", builtin_precedence=False)
     c05.builtin_tables(ctx, rep, "C17")
